@@ -21,7 +21,7 @@ TECHNIQUE = ("static analysis: interval abstract interpretation with widening ov
              "summaries for the header checks), plus path rules for count checks and error-state checks")
 LEVEL_TEXT = ("Every fixed-size buffer access of the reader is an obligation discharged by intervals "
               "that hold for all file contents; count checks and error propagation are path rules "
-              "over all CFG paths. Two byte-scanning loops over the message buffer are bounded by "
+              "over all CFG paths; the per-suffix scratch object starts zero-filled for every suffix. Two byte-scanning loops over the message buffer are bounded by "
               "relational invariants (count + offset) that intervals cannot express; they are listed "
               "as not decided. Termination on endless streams is not decided.")
 LEVEL_NOTE = ("Trusted: clang 14 front end/CFG, tool/mpx.cc, mpsa/intervals.py. fread/fgets/strtol are "
